@@ -380,6 +380,29 @@ func cmdCheck(args []string) int {
 		}
 		report("lemma", q.name, "lemma", q.where, q.res.Status, q.res.File, q.res.Raw, q.res.Model, nil)
 	}
+	// thorough tier: the replay tests of this property's findings are run against the current tree.
+	// A defect recorded as fixed must not reproduce any more (if it does, it has returned: a violation
+	// with a failing input); a known finding that no longer reproduces is reported as a note.
+	replayRuns := []string{}
+	if tier == "thorough" {
+		for _, rr := range replayRegression(*verif, prop) {
+			replayRuns = append(replayRuns, rr.line)
+			total++
+			if rr.fixed && rr.reproduced {
+				violations++
+				_ = os.MkdirAll(replayDir, 0o755)
+				rp := filepath.Join(replayDir, fmt.Sprintf("%03d-replay-%s.txt", violations, sanitizeFile(rr.test)))
+				_ = os.WriteFile(rp, []byte("property: "+prop+"\nfailed obligation: the defect recorded as fixed does not reproduce ("+rr.entry+")\nreplay on the real code: REPRODUCED\n"+rr.output+"\n"), 0o644)
+				fmt.Printf("VIOLATION property=%s replay=%s\n", prop, rp)
+				continue
+			}
+			discharged++
+			byBackend["replay-test"]++
+			if !rr.fixed && !rr.reproduced {
+				fmt.Printf("NOTE: property=%s known finding no longer reproduces on this tree: %s\n", prop, rr.test)
+			}
+		}
+	}
 	sort.Strings(functions)
 	var asm []string
 	for a := range assumptions {
@@ -406,6 +429,7 @@ func cmdCheck(args []string) int {
 			"samples":                   samples,
 			"contract_files":            prog.contracts.files,
 			"spec_files":                prog.spec.files,
+			"replay_regression":         replayRuns,
 		}}
 	writeJSON(evPath, ev)
 	fmt.Printf("property %s: %d obligations, %d discharged, %d violations, %d known findings, %d functions (%d with unsupported paths), %.1fs\n",
